@@ -53,7 +53,7 @@ class FFSPGenerator(Generator):
         # Init observation: running time of each job on each machine
         run_time = torch.randint(
             low=self.min_time,
-            high=self.max_time,
+            high=max(self.max_time, self.min_time + 1),  # min == max: constant run times
             size=(*batch_size, self.num_job, self.num_machine_total),
         )
 
